@@ -55,7 +55,8 @@ MANIFEST_TEXT = (
     'every position (must raise); on every accepted text a second round: the first results are edited in place, then every '
     'input form encodes the same text again (a result handed out twice would decode to the edited letters); every ordered pair of alphabets (+ASCII target) x every text of <= 3 / 4 characters '
     '(3 for the 21- and 16-symbol alphabets) over the full source alphabet x flat / scalar / ragged layouts through '
-    'as_encoded_array, change_encoding and target.encode (same text or raises, never other letters); the three numeric offset encodings over all 256 bytes.')
+    'as_encoded_array, change_encoding and target.encode (same text or raises, never other letters); the three numeric offset encodings over all 256 bytes; a size ladder (texts of N = 2^k-1/2^k/2^k+1 and 10^k+-1 '
+    'symbols up to 2^16 (thorough 2^19) per alphabet as one string, byte array and N/3 rows: decodes to itself, refused with one foreign character first / middle / last).')
 MANIFEST_NOTE = ('Trusted: NumPy, CPython, engine/observe.py, the alphabets as written in models/alphabets.py. '
                  'Exception classes and raw code values are not judged.')
 
@@ -567,7 +568,87 @@ def check_numeric(res, case):
         res.fail(kind, case, {'encoding': name, 'form': form}, expected=exp, observed=obs, tb=tb)
 
 
-CHECKERS = {'encode': check_encode, 'retarget': check_retarget, 'numeric': check_numeric}
+# ---------------------------------------------------------------- part: size ladder
+# Short texts decide which characters are accepted and how rows are laid out; a path chosen by the NUMBER of characters or
+# rows needs long inputs.  Per alphabet and ladder size N: a text of N symbols (quadratic pattern over the whole alphabet)
+# as one string, as a byte array and as N//3 rows; it must decode to itself; with ONE foreign character at the last
+# position, at N//2 and at position 0 it must be refused.
+def ladder_sizes(tier):
+    ns = set()
+    for k in range(6, (17 if tier == 'quick' else 20)):
+        ns.update((2 ** k - 1, 2 ** k, 2 ** k + 1))
+    for k in range(2, 5 if tier == 'quick' else 6):
+        ns.update((10 ** k - 1, 10 ** k, 10 ** k + 1))
+    return sorted(ns)
+
+
+def ladder_text(name, n):
+    alpha = A.ALPHABETS[name]
+    j = np.arange(n, dtype=np.int64)
+    idx = (j * j + j // len(alpha) + 1) % len(alpha)
+    return np.frombuffer(alpha.encode('latin1'), dtype=np.uint8)[idx].tobytes().decode('latin1')
+
+
+def check_ladder(res, case):
+    name, n = case['alphabet'], case['n']
+    enc = encoding(name)
+    bnp = lib()['bnp']
+    text = ladder_text(name, n)
+    size = '<=10^3' if n <= 1000 else ('10^3..10^5' if n <= 10 ** 5 else '>10^5')
+    res.evaluations += 1
+    res.states += 1
+    res.planned += 1
+    res.traces += 1
+    res.nontrivial += 1
+    foreign = A.foreign_representatives(name)[0][1]
+    rows3 = [text[i:i + 3] for i in range(0, n, 3)]
+    forms = [('as_encoded_array(str)', lambda t=text: bnp.as_encoded_array(t, enc), [text]),
+             ('encode(uint8[])', lambda t=text: enc.encode(u8(t)), [text]),
+             ('as_encoded_array(list of rows)', lambda r=rows3: bnp.as_encoded_array(list(r), enc), rows3),
+             ('change_encoding(ASCII rows)', lambda r=rows3: bnp.change_encoding(bnp.as_encoded_array(list(r)), enc), rows3)]
+    for form, call, want in forms:
+        feats = {'form': form, 'size': size, 'part': 'ladder'}
+        res.transitions += 1
+        try:
+            ob = observe_rows(call())
+        except observe.ObserverError:
+            raise
+        except Exception as e:
+            res.fail('rejects-text-over-alphabet', dict(case, form=form), feats, expected='decodes to the text',
+                     observed='raises ' + exc_name(e) + ': ' + str(e)[:160], tb=tb_string(e))
+            res.outcome('ladder:%s:raises' % size)
+            continue
+        if ob[0] != 'rows' or ob[1] != want:
+            got = ob[1] if ob[0] == 'rows' else ob
+            first = next((i for i, (a, b) in enumerate(zip(''.join(got), ''.join(want))) if a != b), None) if ob[0] == 'rows' else None
+            res.fail('decoded-text-differs-from-uppercased-original', dict(case, form=form), feats,
+                     expected={'characters': n, 'rows': len(want)},
+                     observed={'kind': ob[0], 'first_difference_at': first, 'characters': sum(len(r) for r in got) if ob[0] == 'rows' else None,
+                               'rows': len(got) if ob[0] == 'rows' else None})
+            res.outcome('ladder:%s:differs' % size)
+            continue
+        res.outcome('ladder:%s:ok' % size)
+    for where, pos in (('last', n - 1), ('middle', n // 2), ('first', 0)):
+        bad = text[:pos] + foreign + text[pos + 1:]
+        bad_rows = [bad[i:i + 3] for i in range(0, n, 3)]
+        for form, call in (('as_encoded_array(str)', lambda: bnp.as_encoded_array(bad, enc)),
+                           ('as_encoded_array(list of rows)', lambda: bnp.as_encoded_array(bad_rows, enc))):
+            res.transitions += 1
+            try:
+                ob = observe_rows(call())
+            except observe.ObserverError:
+                raise
+            except Exception:
+                res.outcome('ladder:foreign:%s:refused' % size)
+                continue
+            res.fail('accepts-character-outside-alphabet', dict(case, form=form, foreign_at=where),
+                     {'form': form, 'size': size, 'part': 'ladder', 'foreign_at': where},
+                     expected={'raises': True, 'offending': repr(foreign), 'position': pos},
+                     observed={'returned': ob[0], 'character_there': (''.join(ob[1])[pos:pos + 1] if ob[0] == 'rows' else None)})
+            res.outcome('ladder:foreign:%s:ACCEPTED' % size)
+
+
+CHECKERS = {'encode': check_encode, 'retarget': check_retarget, 'numeric': check_numeric, 'ladder': check_ladder}
 
 
 def check_case(res, case, cache=None):
@@ -673,6 +754,10 @@ def unit_cases(unit, tier, seed):
                 layouts = retarget_layouts(n, quick, seed, big)
                 for tgt in targets:
                     yield {'part': 'retarget', 'source': src, 'target': tgt, 'text': text, 'layouts': layouts}
+    elif kind == 'ladder':
+        _, name, sizes = unit
+        for n in sizes:
+            yield {'part': 'ladder', 'alphabet': name, 'n': n}
     else:
         raise ValueError(unit)
 
@@ -724,6 +809,8 @@ def unit_cost(unit, tier, seed):
             texts = s ** (n - 1) * (n if kind == 'foreign' else 1)
             tot += texts * len(A.profiles(n, MAX_ROWS)) * (16 if kind == 'valid' else 8)
         return tot
+    if kind == 'ladder':
+        return 10 * len(unit[2]) + sum(unit[2]) // 40
     if kind == 'retarget':
         _, src, fi, targets = unit
         a = len(A.ALPHABETS[src])
@@ -748,6 +835,10 @@ def units(tier, seed):
             out.append(['valid', name, fi])
         for ri in range(len(A.foreign_representatives(name))):
             out.append(['foreign', name, ri])
+    sizes = ladder_sizes(tier)
+    for name in NAMES:
+        for i in range(0, len(sizes), 6):
+            out.append(['ladder', name, sizes[i:i + 6]])
     for src in NAMES:
         targets = [t for t in TARGETS if t != src]
         out.append(['retarget', src, None, targets])
